@@ -32,7 +32,7 @@ class Job:
                  unwindset=None, defines=(), incs=(), timeout=900, mem_gb=12, object_bits=None,
                  extra=(), meta=None, expect_witness=True, replayable=True, group=None,
                  extra_files=None, nondet_static=False, backend=None, extra_sources=None,
-                 loop_policy=None):
+                 loop_policy=None, be_mix=None):
         self.name = name              # unique within a check run
         self.harness = harness        # C source text
         self.sources = list(sources)  # paths relative to REPO (or absolute)
@@ -44,7 +44,7 @@ class Job:
         self.incs = list(incs)
         self.timeout = timeout
         self.mem_gb = mem_gb
-        self.object_bits = object_bits
+        self.object_bits = object_bits or 12
         self.extra = list(extra)
         self.meta = dict(meta or {})  # bounds etc. for evidence
         self.expect_witness = expect_witness
@@ -52,6 +52,7 @@ class Job:
         self.group = group or name
         self.extra_files = dict(extra_files or {})   # name -> text, written next to harness
         self.nondet_static = nondet_static
+        self.be_mix = be_mix   # None | 'model-only' | 'macros-only' (sanity twins of C14)
         self.loop_policy = loop_policy   # callable(list of loop dicts) -> {loop id: bound}
         self.extra_sources = dict(extra_sources or {})   # name -> C text, compiled with the harness
         self.backend = backend or os.environ.get('VP_BACKEND') or None  # None | 'cadical' | 'kissat' | 'z3' | 'cvc5'
@@ -168,7 +169,11 @@ def compile_goto(job, wd):
            '-I' + wd]
     cmd += ['-I' + (i if os.path.isabs(i) else os.path.join(REPO, i)) for i in job.incs]
     cmd += ['-D' + d for d in job.defines]
-    if job.be:
+    if job.be_mix == 'model-only':
+        cmd += BE_FLAGS[:1]
+    elif job.be_mix == 'macros-only':
+        cmd += BE_FLAGS[1:]
+    elif job.be:
         cmd += BE_FLAGS
     cmd += [hp] + [os.path.join(wd, n) for n in job.extra_sources] + [_src_path(s) for s in job.sources] + ['-o', gb]
     rc, out, err, wall, rss = run_cmd(cmd, 300, 8, cwd=wd)
